@@ -26,6 +26,22 @@ CLAIMED = {
          "Machine-checked proof that the model's twelve encoders/decoders and the header codec satisfy every clause for all objects within the stated bounds and all byte strings; tied to the code by encoding objects of every kind with the real send_packet (bit-exact), parsing headers (all types x boundary lengths, every single-byte corruption) with the real Frame::try_from, and receiving every kind at every declared size 0..64/1023..1025 with truncated, substituted and random payloads through the real recv_packet under catch_unwind.",
          "f32 fields are opaque bit patterns: Euler<->matrix conversion (nalgebra) is outside the model and compared numerically by the harness; from_utf8_lossy on invalid UTF-8 is not modelled (names compared only when valid). One recorded finding: Actor payloads can exceed 1024 bytes within the stated string bounds (KNOWN_FINDINGS.txt, Lean witness C13_actor_exceeds).",
          "DESIGN.md section 4 C13"),
+ "C04": ("Lean 4 theorems over the session state machine (M-sess): induction over frame lists and over event lists (any chunking, any signal interleaving), all 256 type codes, payload lengths 1..1024 + differential runs of the real session over a scripted transport polled by hand",
+         "Machine-checked proof that any event list whose bytes are a sequence of well-formed frames dispatches exactly the valid command frames in order, ends at a frame boundary, and that the result depends only on the concatenated bytes (C04_stream, C04_chunking, C04_frames); tied to the code by feeding generated frame streams whole, byte-wise, at every single cut offset and at random multi-cuts, with signals published at the cuts, to the real spawn_client_session and comparing commands, written bytes and termination per event.",
+         "select!, read (cancel safe) and broadcast semantics of tokio are modelled; schedules in which both select! branches are ready at once are not generated (tokio picks at random; both orders are covered by the theorems since signals never affect dispatch). Two genuine defects were found and fixed (KNOWN_FINDINGS.txt).",
+         "DESIGN.md section 4 C04"),
+ "C03": ("Lean 4 theorems over M-sess: for every event list of bytes/signals followed by a termination of any of the four kinds the armed session emits stop-all after all dispatched commands and ends; arming = failsafe bit of the last registration that passed validation, unaffected by a partially received frame + differential runs cutting generated streams at EVERY byte offset x 4 termination kinds on the real session",
+         "Machine-checked proof of C03_failsafe / C03_stop_is_last / C03_unarmed_silent / C03_arming / C03_partial_frame_inert for all command sequences, all cut offsets, all termination kinds and signal interleavings; tied to the real session by grammar-generated streams cut at every offset with each termination kind, all 32 flag values and invalid flags, valid-then-invalid upgrades.",
+         "What the OS reports for a dead peer (EOF / ECONNRESET / ETIMEDOUT / ECONNABORTED, persistently) is assumed; other error kinds are outside the property. Signals queued during a payload read at the time of death make both select! branches ready (random order, writes to a dead peer unobservable): not generated.",
+         "DESIGN.md section 4 C03"),
+ "C05": ("Lean 4 invariant proof over M-sess from the initial state: no event list (arbitrary bytes, signals, terminations) produces a panic, the session ends only by a termination event, sessions are independent + differential hostile streams on the real session under catch_unwind",
+         "Machine-checked proof of C05_no_panic (invariant on the payload phase + totality of the decoders), C05_normal_exit and C05_isolation for all byte streams; tied to the code by per-byte 0..255 sweeps of every payload byte of each accepted type, declared-length sweeps 1..64/1023..1025, truncation at every offset, all 256 type codes, corrupted and random streams, each ending in a termination so that the failsafe path is exercised.",
+         "Allocation failure and stack overflow are outside the model; the control loop and other sessions are separate tasks sharing only the two broadcast channels (C05_isolation is stated on the product model).",
+         "DESIGN.md section 4 C05"),
+ "C14": ("Lean 4 theorems over M-sess + M-ring (broadcast ring with per-receiver cursor): handshake reply, streaming faithfulness, gating, lag = retained suffix in order, compatibility test + differential runs incl. bursts of 1/15/16/17/40 signals while the session is held inside a payload read, and is_compatibile over all (major,minor)",
+         "Machine-checked proof of C14_handshake, C14_stream_faithful, C14_gated, C14_lag_subsequence (against the publication history, ring invariant by induction), C14_identity_roundtrip and C14_compat_iff; tied to the real session with real tokio broadcast channels: all 32 flag values x names (empty, 64, >64, multi-byte), all six signal kinds, interleavings with command writes cut at arbitrary offsets, bursts around the queue capacity, closed signal channel.",
+         "tokio::sync::broadcast is modelled (capacity 16, Lagged moves the cursor to the oldest retained value) and exercised differentially through the session; a client that stops reading blocks only its own session task (tasks are independent), which is stated, not proved, about tokio.",
+         "DESIGN.md section 4 C14"),
 }
 NOT_YET = "check not built yet in this round (planned: Lean model + correspondence, see DESIGN.md section 4)"
 
